@@ -125,6 +125,6 @@ func writeEvidence(prop, tier string, seed int64, a *aggregate, sg map[string]in
 		"violations": unknownViolations,
 	}
 	b, _ := json.MarshalIndent(ev, "", " ")
-	os.MkdirAll(filepath.Join(verifDir, "evidence"), 0755)
-	os.WriteFile(filepath.Join(verifDir, "evidence", prop+".json"), b, 0644)
+	os.MkdirAll(filepath.Join(outDir(), "evidence"), 0755)
+	os.WriteFile(filepath.Join(outDir(), "evidence", prop+".json"), b, 0644)
 }
